@@ -1,5 +1,13 @@
 # Per-property check configuration for ./check (entries = harness entry functions in /verif/harness).
 PROPS = {
+    "C09": {
+        "quick": {"entries": ["H_C09_VerifyProtocol", "H_C09_Merge", "H_C09_Truncated"]},
+        "thorough": {"entries": ["H_C09_VerifyProtocol", "H_C09_Merge", "H_C09_Truncated"], "opts": {"maxpaths": 3000000}},
+        "covers": {"H_C09_VerifyProtocol": ["c09.verify"], "H_C09_Merge": ["c09.merge.rejected", "c09.merge.accepted", "c09.merge.hearsay", "c09.merge.joined"], "H_C09_Truncated": ["c09.trunc.cut", "c09.trunc.intact"]},
+        "bounds": {"verifyProtocol": "1-2 local records x 1-2 (thorough 3) remote entries, all six version bytes and states symbolic, Vsn length in {0,5,6}", "merge": "1 (thorough 2) arbitrary remote entries over names {n0,n1,n2}; join/veto/user-state symbolic", "truncation": "every cut point of a real 1-node push/pull stream, 2 fragmentations"},
+        "outside": ["msgpack bytes (token model)", "encrypted / compressed / labelled streams are C12-C16", "Join()'s address resolution and dialing"],
+        "assumptions": [],
+    },
     "C17": {
         "quick": {"entries": ["H_C17_Sequence", "H_C17_Rotation"]},
         "thorough": {"entries": ["H_C17_Sequence", "H_C17_Rotation"], "opts": {"maxpaths": 2000000}},
